@@ -603,7 +603,8 @@ def roundtrip(data, fmt, allow, workdir=None):
             try:
                 back = load_one(path, fmt=fmt)
             except Exception as exc:
-                return "load-error", None, exc_class(exc), text, repr(exc)[:300]
+                cause = "" if exc.__cause__ is None else " <- " + repr(exc.__cause__)
+                return "load-error", None, exc_class(exc), text, (repr(exc)[:300] + cause)[:400]
         return "ok", back, None, text, None
     finally:
         try:
@@ -944,6 +945,8 @@ def classify_known(fmt, data, kinds, status, msg, text, back, tabs):
                 cols = np.concatenate([ca, cb], axis=1) if f["beta"] else ca
                 if [s[0] for s in f["shells"]] == seen and _close(cols, rows, 0, 6e-13):
                     return "molekel:center-separators"
+            if status == "load-error" and "KeyError((5, 'c'))" in (msg or "") and any(5 in s[1] for s in src["shells"]):
+                return "molekel:h-shell-unreadable"
             ghost = abs(float(np.sum(data.atnums)) - float(np.sum(data.atcorenums))) > 1e-9
             if status == "load-error" and ghost and ("inconsistent with number of electrons" in (msg or "")
                                                      or "Odd number of electrons" in (msg or "")):
